@@ -39,28 +39,29 @@ type Obligation struct {
 }
 
 type Engine struct {
-	prog         *ssa.Program
-	fset         *token.FileSet
-	pkgs         map[string]*ssa.Package
-	cs           *Contracts
-	heapSorts    map[string]heapSort
-	mu           sync.Mutex
-	obls         map[string]*Obligation
-	oblOrder     []string
-	srcCache     map[string][]string
-	strLits      map[string]string
-	funcsDone    []string
-	unsup        map[string][]string // function -> unsupported notes
-	maxPaths     int
-	verbose      bool
-	usedExt      map[string]bool
-	typeIDs      map[string]int
-	unknownCalls map[string]bool
-	goSites      map[string][]*ssa.Go
-	forms        []rawForm
-	rebound      map[string]string
-	loaded       []*packages.Package
-	declared     map[string]bool
+	prog          *ssa.Program
+	fset          *token.FileSet
+	pkgs          map[string]*ssa.Package
+	cs            *Contracts
+	heapSorts     map[string]heapSort
+	mu            sync.Mutex
+	obls          map[string]*Obligation
+	oblOrder      []string
+	srcCache      map[string][]string
+	strLits       map[string]string
+	funcsDone     []string
+	unsup         map[string][]string // function -> unsupported notes
+	maxPaths      int
+	verbose       bool
+	usedExt       map[string]bool
+	typeIDs       map[string]int
+	unknownCalls  map[string]bool
+	goSites       map[string][]*ssa.Go
+	forms         []rawForm
+	rebound       map[string]string
+	nonNilGlobals map[string]bool
+	loaded        []*packages.Package
+	declared      map[string]bool
 }
 
 type FuncExec struct {
@@ -357,6 +358,7 @@ func (x *Exec) entryState(cut *ssa.BasicBlock) *State {
 			st.assume(v)
 		}
 	}
+	x.buildFrame(st)
 	if cut == nil {
 		x.eng.oblige(fx, st, "canary", "entry", "false", "vacuity canary: requires + axioms must be satisfiable", fn.Pos())
 	}
